@@ -14,6 +14,7 @@ mutual
     Iterable) -/
 def noMerge : Ty → Bool
   | .variant _ | .data | .richData => false
+  | .callable _ _ _ => false      -- (kept outside: the parameter tuples are described under the Callable's own path)
   | .array e _ => noMerge e
   | .hash k v _ => noMerge k && noMerge v
   | .tuple ts _ => noMergeL ts
@@ -122,6 +123,7 @@ theorem describe_sizeReal :
       | skip)
   -- the remaining cases, told apart by the shape of the goal (not by their number: a new `Ty` constructor renumbers them)
   all_goals first
+    | (rename_i hnm _ _ _ _; simp [noMerge] at hnm; done)
     | (rename_i _ r hr m hm; simp [descAll] at hr; subst hr; cases hm; done)
     | (rename_i ih hI r hr m hm
        simp only [descAll] at hr
